@@ -692,8 +692,10 @@ def ac_leg(ctx, kind, specs, build_policy=None):
             mk_ref = lambda lg, m, nv=nvec: ref_multi(lg, nv, m)  # noqa: E731
         if masks is None:  # too many for enumeration: random non-empty (component) masks
             masks = []
-            for _ in range(ctx.n(40, 200)):
+            for mi in range(ctx.n(40, 200)):
                 m = ctx.rng.random(mlen) < 0.5
+                if mlen > 128 and mi % 2 == 0:
+                    m[: int(ctx.rng.integers(100, 128))] = False  # only indices beyond the int8 range stay allowed
                 o = 0
                 for n in (nvec if kind == "multidiscrete" else (mlen,)):
                     if not m[o:o + n].any():
@@ -798,7 +800,8 @@ def ac_leg(ctx, kind, specs, build_policy=None):
 
 
 def u_ac_discrete(ctx):
-    specs = [(2,), (3,), (4,), (5,)] + ([] if ctx.quick else [(1,), (6,), (11,)])
+    # (200,): more classes than int8 holds; random masks, many of which allow only high indices
+    specs = [(2,), (3,), (4,), (5,), (200,)] + ([] if ctx.quick else [(1,), (6,), (11,), (129,)])
     ac_leg(ctx, "discrete", specs)
     ctx.notes["exhaustive_subspaces"] = ["MLPActorCriticPolicy/Discrete(n): every non-empty mask for n <= "
                                          f"{5 if ctx.quick else 6} per (policy, observation)"]
